@@ -164,10 +164,25 @@ func callGV(cp *state.Checkpoint, t uint64) (r gvres) {
 	return gvres{V: vrec{v.PubKey, v.Order, v.VoteNum}}
 }
 
-// a byte string as (K length big-endian-value): one numeral instead of a list of
-// numerals (Coq's front end is slow on long numeral lists); Run.K expands it
+// long byte strings (the real xpubs and their hex forms) are defined once in the
+// header of every case file and referred to by name: Coq's front end is slow on
+// long numeral lists
+var keyNames = map[string]string{}
+var keyDefs strings.Builder
+
+func nameKey(b []byte) {
+	if _, ok := keyNames[string(b)]; ok {
+		return
+	}
+	name := fmt.Sprintf("key%d", len(keyNames))
+	keyNames[string(b)] = name
+	fmt.Fprintf(&keyDefs, "Definition %s : key := %s.\n", name, CoqBytes(b))
+}
 func coqBytes(b []byte) string {
-	return fmt.Sprintf("(K %d%%nat %s)", len(b), new(big.Int).SetBytes(b).String())
+	if n, ok := keyNames[string(b)]; ok {
+		return n
+	}
+	return CoqBytes(b)
 }
 func coqKey(s string) string { return coqBytes([]byte(s)) }
 
@@ -236,11 +251,15 @@ func newKeyring(r *Rng) *keyring {
 		x, _ := chainkd.NewXPrv(rngReader{r})
 		kr.voteXprv = append(kr.voteXprv, x)
 		kr.byPub[x.XPub().String()] = x
+		xp := x.XPub()
+		nameKey(xp[:])
+		nameKey([]byte(xp.String()))
 	}
 	for i := 0; i < 6; i++ {
 		x, _ := chainkd.NewXPrv(rngReader{r})
 		kr.fedXprv = append(kr.fedXprv, x)
 		kr.byPub[x.XPub().String()] = x
+		nameKey([]byte(x.XPub().String()))
 	}
 	return kr
 }
@@ -947,12 +966,13 @@ func safeValidate(hdr, parent *types.BlockHeader, cp *state.Checkpoint) (err err
 
 func run(c *Ctx) error {
 	kr := newKeyring(c.Rng)
-	n := c.N(1500, 12000)
+	n := c.N(1200, 6000)
+	c.Cases.Shard = c.N(86, 220) // 14 shards in the quick tier: one per core the driver uses
 	for i := 0; i < n; i++ {
 		cs := genCase(i, c.Rng, kr, c.Stats)
 		runCase(c, cs, kr)
 	}
 	c.Stats.Rule = "each case is a distinct branch history (initial votes map, status, timestamp; 0-10 blocks with veto inputs and vote outputs over 1-16 keys with frequent ties, prefixes, vetoes equal to / above the tally, wrap-around amounts in the wild stream), consensus parameters and 7-12 block times (slot boundaries, +-1 ms, before the start); a case is non-trivial when the effective validator set is non-empty and the history is not empty; every case runs the real NewCheckpoint/Increase/AllValidators/EffectiveValidators/GetValidator 20 times and is compared with the declarative oracle and with the Coq model"
-	header := "From Coq Require Import List NArith.\nFrom Verif Require Import Outcome Cmp.\nFrom C15 Require Import Model Run.\nImport ListNotations.\nOpen Scope N_scope.\n"
+	header := "From Coq Require Import List NArith.\nFrom Verif Require Import Outcome Cmp.\nFrom C15 Require Import Model Run.\nImport ListNotations.\nOpen Scope N_scope.\n" + keyDefs.String()
 	return c.Cases.Write(c.Out, header, "case_result", "case_eqb")
 }
